@@ -687,6 +687,18 @@ class Scenario(object):
                               'request %r delivered %d transaction(s) to a portfolio' % (op, len(delivered)),
                               delivered=delivered)
 
+        if 'C01' in A and k in ('update', 'exec'):
+            from collections import Counter
+            due = Counter((r['pid'], r['order_id']) for r in self.last_batch)
+            seen = Counter()
+            for d in delivered:
+                seen[(d['pid'], d['order_id'])] += 1
+                if seen[(d['pid'], d['order_id'])] > due.get((d['pid'], d['order_id']), 0):
+                    owners = sorted(r['pid'] for r in self.last_batch if r['order_id'] == d['order_id'])
+                    self.viol('C01', 'fill-booked-in-wrong-portfolio',
+                              'portfolio %s was debited for a fill of %s x %s (order %s) that was never submitted to it; '
+                              'the order belongs to %s' % (d['pid'], d['qty'], d['asset'], d['order_id'], owners),
+                              delivered=delivered)
         if 'C01' in A:
             self.check_c01(op, before, after, delivered)
         if 'C02' in A:
@@ -810,7 +822,7 @@ class Scenario(object):
             pos.last = d['price']
             mp.hist.append({'type': 'asset_transaction', 'amount': cost, 'cash': mp.cash,
                             'dt': str(d['dt']), 'txn': d})
-            self.fills_seen[d['order_id']] = self.fills_seen.get(d['order_id'], 0) + 1
+            self.fills_seen[(d['pid'], d['order_id'])] = self.fills_seen.get((d['pid'], d['order_id']), 0) + 1
         if 'C05' in self.active:
             self.check_c05(t, batch, delivered)
 
@@ -844,7 +856,11 @@ class Scenario(object):
         if k in ('p_sub', 'p_wd'):
             dm = F(after['master']['USD']) - F(before['master']['USD'])
             dp = F(after['ports'][op[1]]['cash']) - F(before['ports'][op[1]]['cash'])
-            if abs(dm + dp) > Fraction(core.REL) * (m.mflow + 1):
+            # the two deltas are differences of floats: each carries the rounding of its own balance
+            mp_ = m.ports[op[1]]
+            scale = (m.mflow + mp_.flow + abs(F(before['master']['USD'])) + abs(F(before['ports'][op[1]]['cash']))
+                     + abs(F(after['ports'][op[1]]['cash'])) + 1)
+            if abs(dm + dp) > Fraction(core.REL) * scale:
                 self.viol('C01', 'transfer-not-zero-sum/%s' % k,
                           'transfer %r moved master by %s and portfolio by %s'
                           % (op, float(dm), float(dp)))
@@ -1110,8 +1126,8 @@ class Scenario(object):
                 acc.count('C04:closed_updates_with_pending')
             return
         # in hours: every pending order fills exactly once, in full, now
-        exp_ids = [r['order_id'] for r in expected]
-        got_ids = [d['order_id'] for d in delivered]
+        exp_ids = [(r['pid'], r['order_id']) for r in expected]
+        got_ids = [(d['pid'], d['order_id']) for d in delivered]
         if sorted(exp_ids) != sorted(got_ids):
             missing = sorted(set(exp_ids) - set(got_ids))
             extra = sorted(set(got_ids) - set(exp_ids))
@@ -1120,14 +1136,14 @@ class Scenario(object):
             self.viol('C04', 'fill-%s/%s' % (kind, cell),
                       'update at %s: pending %s, filled %s (missing %s, extra %s, duplicated %s)'
                       % (t, exp_ids, got_ids, missing, extra, dup))
-        byid = {r['order_id']: r for r in expected}
+        byid = {(r['pid'], r['order_id']): r for r in expected}
         for d in delivered:
-            r = byid[d['order_id']]
+            r = byid[(d['pid'], d['order_id'])]
             if d['qty'] != r['qty'] or d['asset'] != r['asset'] or d['pid'] != r['pid']:
                 self.viol('C04', 'fill-not-in-full', 'order %r filled as %r' % (r, d))
-            if self.fills_seen.get(d['order_id'], 0) != 1:
-                self.viol('C04', 'fill-twice', 'order %s has now been filled %d times'
-                          % (d['order_id'], self.fills_seen.get(d['order_id'])))
+            if self.fills_seen.get((d['pid'], d['order_id']), 0) != 1:
+                self.viol('C04', 'fill-twice', 'order %s of %s has now been filled %d times'
+                          % (d['order_id'], d['pid'], self.fills_seen.get((d['pid'], d['order_id']))))
             acc.count('C04:fills_checked')
             acc.see('C04:fill_cells', 'submitted:%s filled:%s side:%s waited:%s' % (
                 r['submit_cell'], cell, 'buy' if r['qty'] > 0 else 'sell', min(r['waited_closed'], 2)))
@@ -1180,10 +1196,10 @@ class Scenario(object):
 
     def check_c05(self, t, batch, delivered):
         acc = self.acc
-        byid = {r['order_id']: r for r in batch}
+        byid = {(r['pid'], r['order_id']): r for r in batch}
         c, x = self.rates
         for d in delivered:
-            r = byid.get(d['order_id'])
+            r = byid.get((d['pid'], d['order_id']))
             if r is None:
                 continue
             price, exact, comms = self.expected_fill(t, r)
@@ -1432,6 +1448,7 @@ class Gen(object):
         self.queue = []
         self.tmax = sc.t
         self.norder = 0
+        self.ids_by_pid = {}
 
     def qty(self, pid=None, asset=None):
         rng = self.rng
@@ -1440,6 +1457,10 @@ class Gen(object):
         if mp and asset in mp.pos:
             net = mp.pos[asset].net
         r = rng.random()
+        if net and abs(net) > 20 and rng.random() < 0.08:
+            return -net + int(np.sign(net)) * rng.randint(1, 5)      # all but a few units
+        if not net and rng.random() < 0.04:
+            return rng.choice([1, -1]) * rng.randint(10 ** 5, 5 * 10 ** 6)     # a very large position
         if net and r < 0.2:
             return -net                                   # close to exactly zero
         if net and r < 0.35:
@@ -1453,9 +1474,16 @@ class Gen(object):
                 break
         return q if rng.random() < 0.55 else -q
 
-    def oid(self):
-        self.norder += 1
-        return 'o%d' % self.norder
+    def oid(self, pid=None):
+        ids = self.ids_by_pid.setdefault(pid, set())
+        others = sorted(set().union(*[v for p, v in self.ids_by_pid.items() if p != pid] or [set()]) - ids)
+        if pid is not None and others and self.rng.random() < 0.12:
+            o = self.rng.choice(others)          # same id as an order of ANOTHER portfolio (never within one)
+        else:
+            self.norder += 1
+            o = 'o%d' % self.norder
+        ids.add(o)
+        return o
 
     def next(self):
         if self.queue:
@@ -1496,7 +1524,7 @@ class Gen(object):
             return ['p_wd', pid, float(cash) * rng.choice([0.0, 0.1, 0.5, 1.0, rng.random()])]
         if r < 0.55:
             a = rng.choice(assets)
-            return ['order', pid, a, self.qty(pid, a), self.oid()]
+            return ['order', pid, a, self.qty(pid, a), self.oid(pid)]
         if r < 0.83:
             self.tmax = next_time(rng, self.tmax)
             return ['update', str(self.tmax)]
@@ -1506,7 +1534,7 @@ class Gen(object):
         orders = []
         for _ in range(rng.randint(1, 3)):
             a = rng.choice(assets)
-            orders.append([a, self.qty(pid, a), self.oid()])
+            orders.append([a, self.qty(pid, a), self.oid(pid)])
         return ['exec', pid, orders, str(self.tmax)]
 
     def quotes(self, n):
@@ -1523,9 +1551,9 @@ class Gen(object):
                  'p_wd_neg', 'p_wd_unknown', 'p_wd_over', 'create_dup', 'get_cash_unknown', 'get_mv_unknown',
                  'get_eq_unknown', 'get_dict_unknown', 'badccy', 'new_broker', 'order_unknown']
         if self.faults == 'benign+back':
-            kinds += ['update_back', 'update_back', 'update_back', 'update_back']
+            kinds += ['update_back', 'update_back', 'update_back', 'update_back', 'update_back_ok', 'update_back_ok']
         if self.faults == 'all':
-            kinds += ['update_back', 'update_back', 'update_back', 'neg_mark', 'neg_mark', 'pf_sub_back', 'pf_sub_neg',
+            kinds += ['update_back', 'update_back', 'update_back', 'update_back_ok', 'neg_mark', 'neg_mark', 'pf_sub_back', 'pf_sub_neg',
                       'pf_wd_back', 'pf_wd_neg', 'pf_wd_over', 'pf_txn_back', 'pf_mark_neg', 'pf_mark_back']
         k = rng.choice(kinds)
         amt = rand_amount(rng) + 0.01
@@ -1572,6 +1600,24 @@ class Gen(object):
             cand = d + pd.Timedelta(hours=rng.choice([14, 15, 18, 20]), minutes=30)
             if cand < latest:
                 back = cand
+        if k == 'update_back_ok':
+            lo = max(clocks.values())
+            for p in pids:
+                for pos in b.portfolios[p].pos_handler.positions.values():
+                    lo = max(lo, pos.current_dt)
+            hi = b.current_dt
+            if not (lo < hi):
+                return None
+            span = hi - lo
+            t = lo + span * rng.choice([0.0, 0.25, 0.5, 0.9])
+            if rng.random() < 0.6:
+                # prefer an instant in exchange hours so that pending orders fill at the earlier time
+                d = t.normalize()
+                cand = d + pd.Timedelta(hours=rng.choice([14, 15, 18, 20]), minutes=30)
+                if lo <= cand < hi and cand.weekday() <= 4:
+                    t = cand
+            self.queue.append(['update', str(self.tmax)])
+            return ['update', str(t)]
         if k == 'update_back':
             # while the broker clock is behind a portfolio clock, otherwise valid transfers / orders are requested
             for _ in range(rng.choice([0, 0, 1, 1, 2])):
@@ -1583,7 +1629,7 @@ class Gen(object):
                     self.queue.append(['p_wd', pid, float(max(cash, 0.0)) * rng.choice([0.0, 0.1])])
                 else:
                     a = rng.choice(sc.cfg['assets'])
-                    self.queue.append(['order', pid, a, self.qty(pid, a), self.oid()])
+                    self.queue.append(['order', pid, a, self.qty(pid, a), self.oid(pid)])
             self.queue.append(['update', str(self.tmax)])
             return ['update', str(back)]
         if k == 'exec_back':
